@@ -46,6 +46,12 @@ type sweepCase struct {
 	fault faultSpec
 }
 
+// scriptedScenario (set per case): a short fixed script "extend, extend, fork seen through a gap,
+// extend, fork seen through a gap" instead of random actions; swept with every fault placement.
+var scriptedScenario bool
+
+const scriptedBase = 1000
+
 var (
 	nRandom int
 	sweeps  []sweepCase
@@ -55,8 +61,12 @@ func scenAdapter(env *vlib.Env, scen int) (adapter, *vlib.Rng, bool) {
 	r := vlib.NewRng(env.Seed, 1515, uint64(scen))
 	start := uint64(r.Intn(4))
 	big := scen%2 == 1
+	sel := (scen / 2) % 3
+	if scen >= scriptedBase {
+		big, sel = false, (scen-scriptedBase)%3
+	}
 	var ad adapter
-	switch (scen / 2) % 3 {
+	switch sel {
 	case 0:
 		p, s := keyPool(r, 6)
 		ad = &registryAdapter{startBlock: start, prefixes: p, senders: s}
@@ -77,21 +87,34 @@ func prepare(env *vlib.Env) (int, error) {
 	nRandom = env.Scale(600, 20000)
 	sweeps = nil
 	nScen := env.Scale(6, 36)
+	var scens []int
 	for scen := 0; scen < nScen; scen++ {
+		scens = append(scens, scen)
+	}
+	for v := 0; v < env.Scale(3, 12); v++ { // scripted gap-reorg scenarios: one per adapter (thorough: four)
+		scens = append(scens, scriptedBase+v)
+	}
+	for _, scen := range scens {
 		ad, r, big := scenAdapter(env, scen)
+		scriptedScenario = scen >= scriptedBase
 		rpc, rts := runScenario(context.Background(), env, vlib.NewScratchReporter(), -1, r, ad, faultSpec{kind: "none"}, big)
-		// quick: at most ~120 placements per fault kind and scenario; thorough: all up to 1500
+		scriptedScenario = false
+		// quick: at most ~120 placements per fault kind and scenario; thorough: all up to 1500;
+		// the scripted scenarios are short and swept completely
 		limit := env.Scale(120, 1500)
-		stride := 1
+		stride, rpcStride := 1, 1
 		if rts > limit {
 			stride = (rts + limit - 1) / limit
+		}
+		if rpc > limit {
+			rpcStride = (rpc + limit - 1) / limit
 		}
 		for k := 0; k < rts; k += stride {
 			for _, kind := range []string{"dbfail", "crashbefore", "crashafter"} {
 				sweeps = append(sweeps, sweepCase{scen, faultSpec{kind, k}})
 			}
 		}
-		for k := 0; k < rpc; k += stride {
+		for k := 0; k < rpc; k += rpcStride {
 			sweeps = append(sweeps, sweepCase{scen, faultSpec{"rpc", k}})
 		}
 	}
@@ -185,7 +208,12 @@ func runCase(env *vlib.Env, idx int, rep *vlib.Reporter) {
 		sc := sweeps[idx-nRandom]
 		ad, r, big := scenAdapter(env, sc.scen)
 		rep.Obs("sweep_cases", 1)
+		scriptedScenario = sc.scen >= scriptedBase
+		if scriptedScenario {
+			rep.Obs("scripted_gap_reorg_sweep_cases", 1)
+		}
 		runScenario(ctx, env, rep, idx, r, ad, sc.fault, big)
+		scriptedScenario = false
 		return
 	}
 	r := vlib.NewRng(env.Seed, 15, uint64(idx))
@@ -392,8 +420,15 @@ func runScenario(ctx context.Context, env *vlib.Env, rep *vlib.Reporter, idx int
 	steps := 14 + r.Intn(10)
 	ok := true
 	jumped := false
+	scripted := scriptedScenario
+	if scripted {
+		steps = 5
+	}
 	for step := 0; step < steps && ok; step++ {
 		act := r.Intn(10)
+		if scripted {
+			act = []int{0, 0, 7, 0, 7}[step]
+		}
 		if bigJump && !jumped && step == 3 {
 			act = 9
 		}
@@ -428,6 +463,13 @@ func runScenario(ctx context.Context, env *vlib.Env, rep *vlib.Reporter, idx int
 				continue
 			}
 			d := r.Intn(11)
+			below, gap, extra := r.Chance(1, 4), r.Chance(1, 3), r.Intn(4)
+			if scripted {
+				// the scripted scenario: a shallow fork whose first new head is not ahead of the
+				// synced block, then a head two or more blocks further (reorg visible only through
+				// the gap check)
+				d, below, gap, extra = 1+step%3, true, true, 2
+			}
 			if int64(d) > pos {
 				d = int(pos)
 			}
@@ -438,7 +480,6 @@ func runScenario(ctx context.Context, env *vlib.Env, rep *vlib.Reporter, idx int
 			branch := w.info[fp]
 			// build the new branch up to at least pos+1
 			need := int(pos) + 1 - int(fp.Number())
-			extra := r.Intn(4)
 			var nodes []*blockInfo
 			for i := 0; i < need+extra; i++ {
 				branch = w.extend(branch)
@@ -447,8 +488,11 @@ func runScenario(ctx context.Context, env *vlib.Env, rep *vlib.Reporter, idx int
 			// first new head: at most one past the synced block
 			firstIdx := need - 1
 			variant := "at-synced+1"
-			if r.Chance(1, 4) && need >= 2 {
+			if below && need >= 2 {
 				firstIdx = r.Intn(need - 1)
+				if scripted {
+					firstIdx = need - 2 // same height as the synced block
+				}
 				variant = "below-synced+1"
 			}
 			script += fmt.Sprintf(" fork(depth=%d,first=%s)", d, variant)
@@ -458,7 +502,6 @@ func runScenario(ctx context.Context, env *vlib.Env, rep *vlib.Reporter, idx int
 			head = nodes[firstIdx]
 			ok = observe(head)
 			// then the remaining new blocks, block by block or with a gap
-			gap := r.Chance(1, 3)
 			for i := firstIdx + 1; i < len(nodes) && ok; i++ {
 				head = nodes[i]
 				if !gap || i == len(nodes)-1 {
